@@ -17,7 +17,8 @@
 using CSR = SparseMatrixCSR<double>;
 using Trip = std::tuple<int, int, double>;
 static long double frac(const mj::Value& f) { return (long double)f[0].dbl() / (long double)f[1].dbl(); }
-static double rhsval(int k, int i1) { return k == 1 ? (double)i1 : (i1 % 2 == 0 ? -1.0 : 2.0); }
+static int g_n = 0; // dimension of the current instance
+static double rhsval(int k, int i1) { return k == 1 ? (double)i1 : (i1 == g_n ? 3.0 : 0.0); }
 
 // three ways to build the container from row-grouped triplets (columns inside a row in the given order)
 static CSR buildCSR(int n, const std::vector<Trip>& e, int path)
@@ -74,6 +75,7 @@ static int tables(const char* file, unsigned seed)
             }
             CSR M = buildCSR(n, e, path);
             SparseLUSolver<double> S(M);
+            g_n = n;
             for (const auto& sv : t["xs"].arr()) {
                 int k = sv["k"].num();
                 Vector<double> b(n);
@@ -152,7 +154,7 @@ static int numeric(unsigned seed, int count, int from)
         for (int r = 0; r < 3 && fail.empty(); r++) { // several right-hand sides one after another
             std::vector<double> b(n), x(n);
             for (int i = 0; i < n; i++)
-                b[i] = U(gen) * (r == 2 ? pow(10.0, 8 * U(gen)) : 1.0);
+                b[i] = (r == 1 && i < n / 2) ? 0.0 : U(gen) * (r == 2 ? pow(10.0, 8 * U(gen)) : 1.0); // second rhs: exact zeros in front
             x = b;
             S.solveInPlace(x.data());
             for (int i = 0; i < n; i++) {
